@@ -8,9 +8,10 @@ ROOTS = ['h_recognisers', 'h_conversions', 'h_units_prefix', 'h_printed_real', '
 def run(fw):
     n = 4 if fw.tier == 'quick' else 6
     defs = ['MAXLEN=%d' % n, 'VSTD_STR_CAP=15']
-    m = fw.build_model('c16', H, ROOTS, defines=defs)
-    mw = fw.build_model('c16w', H, ROOTS, defines=defs + ['WITNESS'])
-    fw.log('model built: %d functions' % len(m.meta['functions']))
+    # one model per root: only the constant tables that root can reach are initialised in it
+    ms = dict(vfw.pmap(lambda r: (r, fw.build_model('c16_' + r, H, [r], defines=defs)), ROOTS, 5))
+    mws = dict(vfw.pmap(lambda r: (r, fw.build_model('c16w_' + r, H, [r], defines=defs + ['WITNESS'])), ROOTS, 5))
+    fw.log('models built')
     fw.assumptions += ['strings of length <= %d, every byte value 1..255 (longer strings are outside the claim)' % n,
                        'std::stod/std::stoi modelled by their documented contract (fw/rt/vrt_num.c); the numeric value returned by stod is an arbitrary finite double',
                        'ostream<<double not executed: the printer side is checked as "every text in the %.15g output grammar of a finite double is accepted"',
@@ -28,21 +29,21 @@ def run(fw):
 
     def ob(root):
         c = cfg[root]
-        r = fw.cbmc(m, root, unwind=c['unwind'], unwindset=fw.unwindset(m, root, c['rules']), timeout=to, label='%s[len<=%d]' % (root, n),
+        r = fw.cbmc(ms[root], root, unwind=c['unwind'], unwindset=fw.unwindset(ms[root], root, c['rules']), timeout=to, label='%s[len<=%d]' % (root, n),
                     symbolic='string length and %d bytes (1..255 each)' % n if root != 'h_printed_int' else 'a 32-bit int')
         fw.log(root, r['status'], r['wall'], [f['msg'] for f in r['failed']][:5])
         fw.handle(r, H, defs)
 
     def wit(root):
         c = cfg[root]
-        fw.witness(mw, root, unwind=c['unwind'], unwindset=fw.unwindset(mw, root, c['rules']), timeout=to, label='witness:' + root)
+        fw.witness(mws[root], root, unwind=c['unwind'], unwindset=fw.unwindset(mws[root], root, c['rules']), timeout=to, label='witness:' + root)
     vfw.pmap(lambda j: j[0](j[1]), [(ob, r) for r in roots] + [(wit, r) for r in roots], 10)
-    vfw.pmap(lambda root: fw.differential(m, root, H, seeds=60, defines=defs), ROOTS, 5)
+    vfw.pmap(lambda root: fw.differential(ms[root], root, H, seeds=60, defines=defs), ROOTS, 5)
     # the repository's own numeric literals and the historical counterexamples, through model and real library
     lits = ['-', '.', '-.', '-e1', '.e84', '1', '-1', '1.', '.5', '1e5', '1E-5', '1e+5', '+1', ' 1', '1 ', '1e', 'e1', '1.2.3', '0x1', 'inf', 'nan', '٣', '1e99', '-0', '007']
     vecs = [[len(t.encode('utf-8')[:n])] + list((t.encode('utf-8')[:n] + b'\x01' * n)[:n]) for t in lits]
     for root in ['h_recognisers', 'h_conversions', 'h_printed_real']:
-        fw.differential(m, root, H, vectors=vecs, defines=defs)
+        fw.differential(ms[root], root, H, vectors=vecs, defines=defs)
 
 
 FINISH = dict(rule='one obligation = one CBMC query over ALL strings of the stated length bound (or all ints); non-trivial = has solver variables')
